@@ -71,6 +71,7 @@ Release(tag, tm, pl) ==
 \* transport takes a tag, files the stack under it, packs the header and queues the payload.
 Request(r) ==
   /\ stack[r] = "new" /\ CanGet
+  /\ \A q \in Reqs : q < r => stack[q] # "new"      \* requests are interchangeable: issue them in order of name
   /\ \E tag \in (IF pool.free # {} THEN pool.free ELSE {pool.next + 1}) :
        /\ pool' = IF pool.free # {} THEN [pool EXCEPT !.free = @ \ {tag}] ELSE [pool EXCEPT !.next = @ + 1]
        /\ tagmap' = (tag :> r) @@ tagmap
